@@ -3,12 +3,14 @@ package main
 import (
 	"encoding/json"
 	"fmt"
+	"hash/fnv"
 	"os"
 	"os/exec"
 	"path/filepath"
 	"regexp"
 	"sort"
 	"strings"
+	"sync"
 	"time"
 )
 
@@ -39,8 +41,70 @@ type subResult struct {
 
 var summaryRe = regexp.MustCompile(`^== (C[0-9]+): ([0-9]+) obligations, ([0-9]+) hold, ([0-9]+) known findings, ([0-9]+) new violations, ([0-9]+) undecided`)
 
+// subOut is the private output directory of one sub-run (sub-runs execute concurrently).
+func subOut(tmp string, extra []string) string {
+	h := fnv.New32a()
+	h.Write([]byte(strings.Join(extra, "\x00")))
+	return filepath.Join(tmp, fmt.Sprintf("out-%08x", h.Sum32()))
+}
+
 func runSub(self string, id, repo, verif, tmp string, extra ...string) subResult {
+	if r, ok := takePrefetched(extra); ok {
+		return r
+	}
+	return runSubNow(self, id, repo, verif, tmp, extra...)
+}
+
+var (
+	prefetchMu sync.Mutex
+	prefetched = map[string]subResult{}
+)
+
+func takePrefetched(extra []string) (subResult, bool) {
+	prefetchMu.Lock()
+	defer prefetchMu.Unlock()
+	r, ok := prefetched[strings.Join(extra, "\x00")]
+	return r, ok
+}
+
+// prefetch runs the given sub-runs on a small worker pool (each is a full program load, ≈1 GB and
+// several cores) and keeps their results for the sequential reporting code below.
+func prefetch(self, id, repo, verif, tmp string, jobs [][]string) {
+	prefetchMu.Lock()
+	prefetched = map[string]subResult{}
+	prefetchMu.Unlock()
+	workers := 5
+	if v := os.Getenv("VERIF_THOROUGH_WORKERS"); v != "" {
+		fmt.Sscan(v, &workers)
+	}
+	if workers < 1 {
+		workers = 1
+	}
+	ch := make(chan []string)
+	var wg sync.WaitGroup
+	for i := 0; i < workers; i++ {
+		wg.Add(1)
+		go func() {
+			defer wg.Done()
+			for extra := range ch {
+				r := runSubNow(self, id, repo, verif, tmp, extra...)
+				prefetchMu.Lock()
+				prefetched[strings.Join(extra, "\x00")] = r
+				prefetchMu.Unlock()
+			}
+		}()
+	}
+	for _, j := range jobs {
+		ch <- j
+	}
+	close(ch)
+	wg.Wait()
+}
+
+func runSubNow(self string, id, repo, verif, tmp string, extra ...string) subResult {
 	t0 := time.Now()
+	tmp = subOut(tmp, extra)
+	os.MkdirAll(filepath.Join(tmp, "evidence"), 0o755)
 	args := append([]string{"check", id, "-tier", "quick", "-sub", "-repo", repo, "-verif", verif, "-out", tmp}, extra...)
 	cmd := exec.Command(self, args...)
 	cmd.Env = os.Environ()
@@ -212,6 +276,16 @@ func runThorough(id, repo, verif, outDir string) int {
 	defer os.RemoveAll(tmp)
 	exit := 0
 	var results []subResult
+	// all sub-runs are independent: run them on a worker pool first, report in order afterwards
+	{
+		jobs := [][]string{{"-goos", "darwin", "-goarch", "arm64"}, {"-goos", "windows", "-goarch", "amd64"}}
+		for _, b := range append(breakersFor(id, verif), neutralsFor(id, verif)...) {
+			if ov, err := overlayFor(b, repo, tmp); err == nil {
+				jobs = append(jobs, []string{"-overlay", ov})
+			}
+		}
+		prefetch(self, id, repo, verif, tmp, jobs)
+	}
 	// 1. other build contexts
 	for _, ctx := range [][2]string{{"darwin", "arm64"}, {"windows", "amd64"}} {
 		r := runSub(self, id, repo, verif, tmp, "-goos", ctx[0], "-goarch", ctx[1])
@@ -222,7 +296,7 @@ func runThorough(id, repo, verif, outDir string) int {
 			fmt.Printf("thorough %s: build context %s: %d obligations, 0 new violations (%.1fs)\n", id, r.Name, r.Obligations, r.WallS)
 		case 1:
 			// keep the violation report
-			src := filepath.Join(tmp, "evidence", id+".violation.json")
+			src := filepath.Join(subOut(tmp, []string{"-goos", ctx[0], "-goarch", ctx[1]}), "evidence", id+".violation.json")
 			dst := filepath.Join(outDir, "evidence", id+"."+ctx[0]+"-"+ctx[1]+".violation.json")
 			if b, e := os.ReadFile(src); e == nil {
 				os.WriteFile(dst, b, 0o644)
